@@ -48,15 +48,8 @@ Qed.
 Lemma v_pkg_ident : PkgIdent v_env v_universe.
 Proof. intros p q Hp Hq _. cbn in Hp, Hq. lia. Qed.
 
-Definition single_names_b (ex : list (name * nat)) : bool :=
-  forallb (fun p => forallb (fun q => negb (snd p =? snd q) || N.eqb (fst q) (fst p)) ex) ex.
-
 Lemma v_defs_single : DefsSingle (run v_universe v_ops).
-Proof.
-  assert (B : single_names_b (exports (run v_universe v_ops)) = true) by (vm_compute; reflexivity).
-  intros nm nm' n H1 H2 _. unfold single_names_b in B. rewrite forallb_forall in B. specialize (B _ H1).
-  rewrite forallb_forall in B. specialize (B _ H2). cbn in B. rewrite Nat.eqb_refl in B. cbn in B. now apply N.eqb_eq in B.
-Qed.
+Proof. apply reach_defs_single. Qed.
 
 Definition v_run (dc : bool) : option (nat * nat * bool * bool) :=
   let g := run v_universe v_ops in
